@@ -66,6 +66,9 @@ func (r *GraphemeReader) ReadByte() (byte, error) {
 	}
 	b := r.data[r.start]
 	r.start++
+	// A byte taken here is a control byte or part of an escape sequence: it ends
+	// any grapheme cluster, so segmentation of the text that follows starts afresh.
+	r.state = -1
 	return b, nil
 }
 
